@@ -738,8 +738,10 @@ func (p *Prog) chanOpsOnField(f *types.Var) []chanOp {
 						out = append(out, chanOp{Kind: kind, In: in, Fn: fn, InSelect: x, Blocking: x.Blocking, Sel: others, Val: s.Send, Base: base})
 					}
 				}
-			case *ssa.Call:
-				if b, ok := x.Call.Value.(*ssa.Builtin); ok && len(x.Call.Args) == 1 {
+			case *ssa.Call, *ssa.Defer:
+				xc := callOf(in)
+				if b, ok := xc.Value.(*ssa.Builtin); ok && len(xc.Args) == 1 {
+					x := struct{ Call *ssa.CallCommon }{xc}
 					if g, base := chanFieldOf(x.Call.Args[0]); g == f {
 						k := opOther
 						switch b.Name() {
@@ -924,7 +926,24 @@ func isFreshAlloc(base ssa.Value) bool {
 		return true
 	case *ssa.UnOp:
 		if x.Op == token.MUL {
-			return isFreshAlloc(x.X)
+			// load from a local cell: fresh iff the cell's only store puts a fresh allocation there
+			if cell, ok := x.X.(*ssa.Alloc); ok {
+				var st *ssa.Store
+				n := 0
+				for _, r := range *cell.Referrers() {
+					if s, ok := r.(*ssa.Store); ok && s.Addr == ssa.Value(cell) {
+						st, n = s, n+1
+					}
+				}
+				if n == 1 {
+					if _, isAlloc := st.Val.(*ssa.Alloc); isAlloc {
+						return true
+					}
+				}
+				if n == 0 {
+					return true // value struct held in the cell itself
+				}
+			}
 		}
 	}
 	return false
